@@ -421,6 +421,13 @@ def tie_free(s):
     return len(np.unique(allv)) == len(allv)
 
 
+def moderate_magnitude(s):
+    """C06 quantifies the crossing clauses over 'finite scores of moderate magnitude': no subnormal-range or near-overflow values."""
+    v = np.abs(np.concatenate([np.asarray(s.pos, dtype=float), np.asarray(s.neg, dtype=float)]))
+    nz = v[v > 0]
+    return bool(nz.size == 0 or (nz.min() >= 1e-150 and nz.max() <= 1e150))
+
+
 def install_eer(sess):
     S = lib()
     install_ctor_snapshot(sess)
@@ -449,6 +456,9 @@ def install_eer(sess):
         if not tf:
             sess.skip("M-eer", "ties: crossing clauses not claimed")
             return
+        if not moderate_magnitude(s):
+            sess.skip("M-eer", "magnitude near the float range limits: only the zero-EER clause is claimed")
+            return
         sess.check("M-eer", 0.0 <= e <= 1.0, "EER outside [0,1]", w, sig=sig, key="eer-range")
         sess.check("M-eer", abs(fpr - e) <= 1.0 / s.nb_all_neg + 1e-9, "FPR at the EER threshold is more than one sample from the EER", w, sig=sig, key="eer-fpr")
         sess.check("M-eer", abs(fnr - e) <= 1.0 / s.nb_all_pos + 1e-9, "FNR at the EER threshold is more than one sample from the EER", w, sig=sig, key="eer-fnr")
@@ -458,6 +468,9 @@ def install_eer(sess):
         s = args[0]
         if len(s.pos) == 0 or len(s.neg) == 0 or not finite_arr(s.pos) or not finite_arr(s.neg):
             sess.skip("M-eer", "empty class or non-finite")
+            return
+        if not moderate_magnitude(s):
+            sess.skip("M-eer", "magnitude near the float range limits: only the zero-EER clause is claimed")
             return
         pos, neg = src_lists(s)
         sess.check("M-eer", False, "eer() raised on an in-scope object",
@@ -470,7 +483,9 @@ def install_eer(sess):
 def close_thr(a, b, span):
     a = np.asarray(a, dtype=float)
     b = np.asarray(b, dtype=float)
-    return bool(np.all(np.abs(a - b) <= 8 * np.spacing(np.maximum(np.maximum(np.abs(a), np.abs(b)), 1e-300)) + 1e-9 * span))
+    with np.errstate(all="ignore"):  # equal infinities are equal; inf - inf would be NaN
+        fin = np.where(np.isfinite(a) | np.isfinite(b), np.maximum(np.abs(a), np.abs(b)), 1.0)
+        return bool(np.all((a == b) | (np.abs(a - b) <= 8 * np.spacing(np.maximum(np.where(np.isfinite(fin), fin, 1.0), 1e-300)) + 1e-9 * span)))
 
 
 # --------------------------------------------------------------------------------------
@@ -560,7 +575,8 @@ def bci_tolerance(theta, expected):
     fin = fin[np.isfinite(fin)]
     rng_ = float(fin.max() - fin.min()) if fin.size else 0.0
     n = np.asarray(theta).shape[0]
-    return 1e-9 * np.maximum(1.0, np.abs(expected)) + 4e-14 * n * rng_
+    mag = float(np.abs(fin).max()) if fin.size else 0.0  # relative to the replicates' own magnitude (rates of 1e-5 are data, too)
+    return 1e-9 * np.maximum(mag if mag > 0 else 1.0, np.abs(expected)) + 4e-14 * n * rng_
 
 
 def install_bci(sess, keep=False):
@@ -913,12 +929,27 @@ def install_roc(sess):
 
     RC = sys.modules["score_analysis.roc_curve"]
 
+    kept = []  # the last curves returned, with copies of their arrays at return time: later calls must not change them
+
+    def pre(args, kwargs):
+        return {k: (v, np.array(v, copy=True)) for k, v in kwargs.items() if k in ("thresholds", "fnr", "fpr") and isinstance(v, np.ndarray)}
+
     def post(snap, args, kwargs, res):
         a = dict(kwargs)
         judge_roc(sess, args[0] if args else a.pop("scores"), a, res)
+        for k, (v, cp) in (snap or {}).items():
+            sess.check("M-roc", np.array_equal(v, cp, equal_nan=True), "roc() changed a caller-supplied array", lambda: {"argument": k, "before": cp, "after": v},
+                       sig=("caller-array", k), key="roc-caller-array")
+        for curve, th, fnr, fpr in kept:
+            ok = np.array_equal(curve.thresholds, th, equal_nan=True) and np.array_equal(curve.fnr, fnr, equal_nan=True) and np.array_equal(curve.fpr, fpr, equal_nan=True)
+            sess.check("M-roc", ok, "a curve returned earlier was changed by a later roc() call",
+                       lambda: {"thresholds_at_return": th, "thresholds_now": np.asarray(curve.thresholds), "fnr_at_return": fnr, "fnr_now": np.asarray(curve.fnr)},
+                       sig=("kept-curve",), key="roc-kept-curve")
+        kept.append((res, np.array(res.thresholds, copy=True), np.array(res.fnr, copy=True), np.array(res.fpr, copy=True)))
+        del kept[:-4]
 
-    sess.wrap(RC, "roc", "M-roc", post)
-    sess.wrap(score_analysis, "roc", "M-roc", post)  # name bound at import of the package
+    sess.wrap(RC, "roc", "M-roc", post, pre=pre)
+    sess.wrap(score_analysis, "roc", "M-roc", post, pre=pre)  # name bound at import of the package
 
 
 # --------------------------------------------------------------------------------------
@@ -1281,7 +1312,7 @@ def install_met(sess):
                 return
             num = _cells(m, num_c).astype(float)
             den = _cells(m, den_c).astype(float)
-            z = R.ppf(1 - alpha / 2)
+            z = -R.ppf(alpha / 2)  # upper-tail quantile from the lower tail: 1 - alpha/2 would round for tiny alpha
             with np.errstate(all="ignore"):
                 p = np.where(den != 0, num / np.where(den == 0, 1, den), np.nan)
                 hw = z * np.sqrt(p * (1 - p) / np.where(den == 0, 1, den))
@@ -1316,7 +1347,7 @@ def install_met(sess):
         if not isinstance(alpha, float) or not (0 < alpha < 1) or np.any(~np.isfinite(count)) or np.any(~np.isfinite(nobs)) or np.any(count < 0) or np.any(count > nobs):
             sess.skip("M-met", "binomial_ci out of scope")
             return
-        z = R.ppf(1 - alpha / 2)
+        z = -R.ppf(alpha / 2)
         with np.errstate(all="ignore"):
             p = np.where(nobs != 0, count / np.where(nobs == 0, 1, nobs), np.nan)
             hw = z * np.sqrt(p * (1 - p) / np.where(nobs == 0, 1, nobs))
